@@ -12,3 +12,16 @@ claim('C09', 'model_checking',
       _TB + '; heapq and list comparison are executed, not modelled.',
       'symbolic execution of the real class (concolic z3 proxies) + per-path SMT validity; inductive step over the '
       'representation invariant', 'DESIGN.md 3/C09')
+
+claim('C16', 'model_checking',
+      'Block allocator (the class Server installs): explicit reachable-state exploration of the real object to a '
+      'fixpoint for every configuration (partition size <=5 quick / <=7 thorough, reserved offset, client id), '
+      'i.e. every history of alloc(n)/free/double free of any length within those sizes, with the random tie-break '
+      'and free-list iteration order as adversarial choices; each transition is checked against an interval-set '
+      'reference (inside partition, disjoint, no-space only when no free run). Node ids: one symbolic step from an '
+      'arbitrary cursor over the whole 26-bit window decided by z3, plus z3 lemmas giving pairwise distinctness over '
+      'a full window.',
+      _TB + '; the block-allocator part is finite-domain: the decision tree enumerates it completely and the solver '
+      'only decides the node-id obligations.',
+      'decision-tree state exploration of the real allocator (fixpoint) + SMT validity (LIA) for NodeIDAllocator',
+      'DESIGN.md 3/C16')
